@@ -236,6 +236,11 @@ def cases(tier, seed):
     nodes = [10, 100, 1000, 5000, 9000, 12000, 13500] + ([50, 500, 2500, 7000] if tier == "thorough" else [])
     pmax = 14000.0
     out = [{"kind": "comp", **c, "nodes": nodes, "pmax": pmax} for c in compositions(tier, seed)]
+    # maximum pressures that are not multiples of the 10-psi step (a table built "up to the initial pressure"): the table's
+    # spacing is still 10 psi and its differences still agree with quadrature and with the stand-alone transform
+    comps = compositions(tier, seed)
+    out += [{"kind": "comp", **comps[1], "nodes": nodes + [600, 1250], "pmax": 1255.0},
+            {"kind": "comp", **comps[0], "nodes": nodes + [2500, 3000], "pmax": 3002.5}]
     out += [{"kind": "synth", "grid": g, "integrand": i, "seed": seed}
             for g, i in itertools.product(["uniform", "geometric", "irregular", "uniform-desc", "irregular-desc",
                                            "uniform-int", "irregular-int", "irregular-int-desc", "window", "ramp", "window-desc"],
